@@ -191,8 +191,6 @@ class Model():
 
         self.next_id = max(asset.id + 1, self.next_id)
 
-        asset.associations = []
-
         if not hasattr(asset, 'name'):
             asset.name = asset.type + ':' + str(asset.id)
         else:
@@ -205,6 +203,12 @@ class Model():
                         ' and we do not allow duplicates.'
                     )
         self.asset_names.add(asset.name)
+
+        # Note: set after the name on purpose. Assets are compared by value,
+        # property by property in the order the properties were set; with the
+        # (unique) name first a comparison between two assets never descends
+        # into their association lists, which reference the assets again.
+        asset.associations = []
 
         # Optional field for extra asset data
         if not hasattr(asset, 'extras'):
